@@ -8,31 +8,31 @@ for k, (n, t, mx) in kinds.items():
     key = f"RuleKey(s.LocalID, {n}, uint64(val({acc})))"
     m = f"s.{k}IDs"
     w(f"//@ func (s *Sess) Create{k}(req *ie.IE) (err error)")
-    w(f"//@   requires sessWF(s) && book(s) && req != nil")
-    w(f"//@   ensures [book]  book(s)")
-    w(f"//@   ensures [wf]    sessWF(s)")
+    w(f"//@   requires sessOK(s) && req != nil")
+    w(f"//@   ensures [ok]    sessOK(s)")
     w(f"//@   ensures [rec]   ok({acc}) ==> val({acc}) in {m}")
     w(f"//@   ensures [mono]  forall id {t} :: id in old({m}) ==> id in {m}")
     w(f"//@   ensures [isol]  forall k RuleKey :: k.seid != s.LocalID ==> ((k in DP) == (k in old(DP)))")
     w(f"//@   ensures [sup]   forall k RuleKey :: k in old(DP) ==> k in DP")
     w(f"//@   ensures [noid]  !ok({acc}) ==> err != nil && DP == old(DP) && CREATED == old(CREATED)")
     w(f"//@   modifies {m}[_], DP, CREATED")
+    w(f"//@   reveal sessOK")
     w(f"//@   serves C01 C05 C07")
     w(f"//@   at call Create{k}:")
     w(f"//@     assert [seid]     arg0 == s.LocalID && arg1 == req")
     w(f"//@     assert [recorded] val({acc}) in {m}")
     w("")
     w(f"//@ func (s *Sess) Update{k}(req *ie.IE) (err error)")
-    w(f"//@   requires sessWF(s) && book(s) && req != nil")
+    w(f"//@   requires sessOK(s) && req != nil")
     w(f"//@   modifies nothing")
+    w(f"//@   reveal sessOK")
     w(f"//@   serves C01 C05 C07")
     w(f"//@   at call Update{k}:")
     w(f"//@     assert [seid] arg0 == s.LocalID && arg1 == req")
     w("")
     w(f"//@ func (s *Sess) Remove{k}(req *ie.IE) (err error)")
-    w(f"//@   requires sessWF(s) && book(s) && req != nil")
-    w(f"//@   ensures [book]  book(s)")
-    w(f"//@   ensures [wf]    sessWF(s)")
+    w(f"//@   requires sessOK(s) && req != nil")
+    w(f"//@   ensures [ok]    sessOK(s)")
     w(f"//@   ensures [gone]  ok({acc}) && val({acc}) in old({m}) ==> !({key} in DP)")
     w(f"//@   ensures [sub]   forall k RuleKey :: k in DP ==> k in old(DP)")
     w(f"//@   ensures [isol]  forall k RuleKey :: k.seid != s.LocalID ==> ((k in DP) == (k in old(DP)))")
@@ -40,6 +40,7 @@ for k, (n, t, mx) in kinds.items():
     w(f"//@   ensures [del]   err == nil ==> !(val({acc}) in {m})")
     w(f"//@   ensures [keep]  err != nil && ok({acc}) ==> (forall id {t} :: id in old({m}) ==> id in {m})")
     w(f"//@   modifies {m}[_], DP")
+    w(f"//@   reveal sessOK")
     w(f"//@   serves C01 C05 C07")
     w(f"//@   at call Remove{k}:")
     w(f"//@     assert [seid] arg0 == s.LocalID && arg1 == req")
